@@ -19,6 +19,7 @@ package ext
 //@   requires rs.contentLength >= 0 ==> bsFixed(rs)
 //@   requires rs.reader != nil
 //@   requires rs.chunkLeft >= 0
+//@   requires rs.contentLength == -1 ==> rs.trailer != nil
 //@   modifies *, rs.reader.pos, rs.reader.avail, rs.reader.failed
 //@   ensures old(rs.contentLength) == -1 ==> rs.chunkLeft >= 0
 //@   assert @C14 before ParseChunkSize: rs.chunkLeft == 0
